@@ -35,7 +35,10 @@ func VH_C18() {
 	vAssume(len(homeDir) > 1)
 	currDir = "/tmp"
 	knownPathMap = map[string]string{homeDir: "~", currDir: "."}
-	knownPathRegexpMap = nil // regexp mappings are outside the claim
+	useRegexp := vParam("regexp", 0) == 1
+	if !useRegexp {
+		knownPathRegexpMap = nil // symbolic paths through arbitrary regexp mappings are outside the claim
+	} // else: the library's built-in mapping /Volumes/[^/]+/ -> ~ stays registered
 	type mp struct{ dir, repl string }
 	prot := []mp{{homeDir, "~"}, {currDir, "."}}
 	for j := 0; j < vParam("maps", 1); j++ {
@@ -59,7 +62,14 @@ func VH_C18() {
 		flags |= Lprivacypathregexp
 	}
 	var in string
-	switch vChoose(3) {
+	nIn := 3
+	if useRegexp {
+		nIn = 4
+	}
+	switch vChoose(nIn) {
+	case 3:
+		// a path under a protected directory that the regexp mapping matches too
+		in = prot[vChoose(len(prot))].dir + "/Volumes/" + vPathString(1, "ab") + "/" + vPathString(1, "ab/")
 	case 0:
 		in = vPathString(plen, "/.ab~")
 	case 1:
@@ -77,7 +87,7 @@ func VH_C18() {
 			under = true
 			if privacy {
 				vCover("C18:protected")
-				vAssert(!vUnder(out, m.dir), "C18: a path under a protected directory is never reported with that prefix")
+				vAssert(!strings.HasPrefix(out, m.dir), "C18: a path under a protected directory is never reported with that prefix")
 			}
 		}
 	}
